@@ -191,3 +191,109 @@ Definition client_flags (code : nat) : bool * bool * bool :=   (* timeout, tempo
   (Nat.eqb code 408 || Nat.eqb code 504,
    Nat.eqb code 503 || Nat.eqb code 409 || Nat.eqb code 429 || Nat.eqb code 504,
    Nat.eqb code 500 || Nat.eqb code 501 || Nat.eqb code 502).
+
+(* ---- errors as a service method hands them to the transport: any depth of wrapping ----
+   http/encoding.go ErrorEncoder, http/error.go NewErrorResponse, grpc/error.go EncodeError
+   all look for the *ServiceError with errors.As, i.e. depth first, left to right through
+   Unwrap() error / Unwrap() []error. *)
+Inductive eshape :=
+| EPlain (msg : string)              (* an error that neither is nor wraps a *ServiceError *)
+| EServ (c : core)                   (* a *ServiceError (what it wraps itself is never looked at) *)
+| EWrap (w : string) (e : eshape)    (* fmt.Errorf(w+": %w", e), or any type whose Unwrap() returns e *)
+| EJoin (a b : eshape).              (* errors.Join(a, b) *)
+
+Definition nl : string := String "010"%char EmptyString.
+
+(* err.Error() *)
+Fixpoint error_string (e : eshape) : string :=
+  match e with
+  | EPlain m => m
+  | EServ c => cmsg c
+  | EWrap w e => w ++ ": " ++ error_string e
+  | EJoin a b => error_string a ++ nl ++ error_string b
+  end.
+
+(* errors.As(err, &gerr) with gerr a *ServiceError *)
+Fixpoint find_serr (e : eshape) : option core :=
+  match e with
+  | EPlain _ => None
+  | EServ c => Some c
+  | EWrap _ e => find_serr e
+  | EJoin a b => match find_serr a with Some c => Some c | None => find_serr b end
+  end.
+
+(* goa.Fault("%s", msg) with the identifier NewErrorID drew *)
+Definition fault_core (m id : string) : core :=
+  {| cname := "fault"; cid := id; cfield := None; cmsg := m;
+     ctimeout := false; ctemporary := false; cfault := true |}.
+
+(* http.NewErrorResponse: the six body fields. fid = the identifier drawn when the error
+   holds no service error *)
+Definition http_error_response (fid : string) (e : eshape) : resp :=
+  match find_serr e with
+  | Some c => resp_of_core c
+  | None => resp_of_core (fault_core (error_string e) fid)
+  end.
+
+(* ErrorResponse.StatusCode *)
+Definition resp_status (r : resp) : nat := http_status (core_of_resp r).
+
+(* the http.ResponseWriter as the encoder uses it: the status line that went out (only the
+   first WriteHeader counts; a body written first sends an implicit 200), the bodies
+   encoded so far, the number of WriteHeader calls *)
+Record writer := { wstatus : option nat; wbodies : list resp; wcalls : nat }.
+Definition fresh_writer : writer := {| wstatus := None; wbodies := []; wcalls := 0 |}.
+Definition write_header (s : nat) (w : writer) : writer :=
+  {| wstatus := match wstatus w with None => Some s | Some x => Some x end;
+     wbodies := wbodies w; wcalls := S (wcalls w) |}.
+Definition write_body (b : resp) (w : writer) : writer :=
+  {| wstatus := match wstatus w with None => Some 200 | Some x => Some x end;
+     wbodies := (wbodies w ++ [b])%list; wcalls := wcalls w |}.
+
+(* a formatter: error -> Statuser; what matters of a Statuser is its status code and what
+   the body encoder writes for it *)
+Definition formatter := eshape -> nat * resp.
+
+Definition default_formatter (fid : string) : formatter :=
+  fun e => let r := http_error_response fid e in (resp_status r, r).
+
+(* http.ErrorEncoder(encoder, formatter)(ctx, w, err) *)
+Definition error_encoder (f : option formatter) (fid : string) (e : eshape) (w : writer) : writer :=
+  let fm := match f with Some g => g | None => default_formatter fid end in
+  let r := fm e in
+  write_body (snd r) (write_header (fst r) w).
+
+(* grpc.EncodeError for an error that is not already a gRPC status: code, status message,
+   ErrorResponse detail *)
+Definition code_of_flags (c : core) : grpc_code :=
+  if ctemporary c then Unavailable
+  else if ctimeout c then DeadlineExceeded
+  else if cfault c then Internal
+  else Unknown.
+
+Definition grpc_encode (fid : string) (e : eshape) : grpc_code * string * resp :=
+  match find_serr e with
+  | Some c => (code_of_flags c, error_string e, resp_of_core c)
+  | None => (Unknown, error_string e, resp_of_core (fault_core (error_string e) fid))
+  end.
+
+(* ---- the specification side for the transport: the service errors an error holds, in
+        the order errors.As meets them, as a function of the shape alone ---- *)
+Fixpoint serrs (e : eshape) : list core :=
+  match e with
+  | EPlain _ => []
+  | EServ c => [c]
+  | EWrap _ e => serrs e
+  | EJoin a b => (serrs a ++ serrs b)%list
+  end.
+
+(* the error the wire must describe: the first service error held, whatever wraps it, or a
+   fault carrying the whole error text when there is none *)
+Definition encoded_core (fid : string) (e : eshape) : core :=
+  match serrs e with
+  | c :: _ => c
+  | [] => fault_core (error_string e) fid
+  end.
+
+(* n wrappers around an error *)
+Definition wrap_all (ws : list string) (e : eshape) : eshape := fold_right EWrap e ws.
